@@ -45,6 +45,14 @@ class Ctx:
         return self.tier == 'quick'
 
     def cleanup(self):
+        if COV:
+            dst = os.path.join(COV, self.prop)
+            os.makedirs(dst, exist_ok=True)
+            for root, _, files in os.walk(self.scratch):
+                for f in files:
+                    if f.endswith(('.gcda', '.gcno')):
+                        rel = os.path.relpath(os.path.join(root, f), self.scratch).replace('/', '__')
+                        shutil.copy(os.path.join(root, f), os.path.join(dst, rel))
         shutil.rmtree(self.scratch, ignore_errors=True)
 
     def count(self, key, n=1):
@@ -184,6 +192,14 @@ def leanchecker(ctx, modules):
 BASE_FLAGS = ['-O1', '-g', '-fsanitize=address,undefined', '-fno-sanitize-recover=all', '-fno-omit-frame-pointer',
               '-DNDEBUG', '-DUSESYSLOG', '-D_FILE_OFFSET_BITS=64', '-D_GNU_SOURCE', '-std=gnu99', '-w',
               '-DDERDAKON_QSMTP_VERIF']
+
+
+# diagnostic mode (never used by the registered commands): VERIF_COV=<dir> builds the harnesses with gcov
+# instrumentation and keeps the counters, so that tools/coverage.py can list the lines of the modelled
+# functions no generated case reached
+COV = os.environ.get('VERIF_COV')
+if COV:
+    BASE_FLAGS = BASE_FLAGS + ['--coverage', '-fprofile-update=atomic', '-DVERIF_COVERAGE']
 
 
 def prepare_includes(ctx, autoqmail=None):
